@@ -1425,6 +1425,21 @@ EGLPNUM_TYPENAME_QSLIB_INTERFACE int EGLPNUM_TYPENAME_QSchange_senses (
 	rval = EGLPNUM_TYPENAME_ILLlib_chgsense (p->lp, num, rowlist, sense);
 	CHECKRVALG (rval, CLEANUP);
 
+	/* only the logical of a ranged row can be nonbasic at its upper bound: keep
+	 * the stored basis loadable, and do not reuse a factorization computed
+	 * with the old sign of the logical's coefficient */
+	if (p->basis && p->basis->rstat)
+	{
+		int i;
+		for (i = 0; i < num; i++)
+		{
+			if (sense[i] != 'R' && rowlist[i] >= 0 && rowlist[i] < p->basis->nrows &&
+					p->basis->rstat[rowlist[i]] == QS_ROW_BSTAT_UPPER)
+				p->basis->rstat[rowlist[i]] = QS_ROW_BSTAT_LOWER;
+		}
+	}
+	p->factorok = 0;
+
 	free_cache (p);
 
 CLEANUP:
